@@ -22,6 +22,9 @@ pub struct Tree {
     pub dirs: Vec<String>,
     /// broken inputs, path relative to root, with a short kind label
     pub bad: Vec<(String, &'static str)>,
+    /// per fixture directory: byte-identical copies of its schema files under names whose
+    /// extension does not fit the content (or is unsupported)
+    pub bad_related: std::collections::BTreeMap<String, Vec<(String, &'static str)>>,
 }
 
 fn copy_into(src: &Path, dst_dir: &Path, out: &mut Vec<(String, u64)>) {
@@ -141,10 +144,18 @@ pub fn build(repo: &Path, root: &Path, with_big: bool) -> Tree {
             if f.to_lowercase().contains("schema") && f.ends_with(".graphql") && *len < 50_000 {
                 let sdl = fs::read_to_string(fx.join(&name).join(f)).unwrap_or_default();
                 if let Ok(c) = sdl2json::convert(&sdl, "") {
-                    let twin = format!("{}_twin.json", f.trim_end_matches(".graphql"));
+                    // same stem, other extension: schema.graphql <-> schema.json; and the SDL again
+                    // under the other two supported extensions
+                    let stem = f.trim_end_matches(".graphql");
+                    let twin = format!("{}.json", stem);
                     let text = serde_json::to_string(&serde_json::json!({"data": {"__schema": c.schema}})).unwrap();
                     fs::write(fx.join(&name).join(&twin), &text).unwrap();
                     twins.push((twin, text.len() as u64));
+                    for ext in ["gql", "graphqls"] {
+                        let alt = format!("{}.{}", stem, ext);
+                        fs::write(fx.join(&name).join(&alt), &sdl).unwrap();
+                        twins.push((alt, sdl.len() as u64));
+                    }
                 }
             }
         }
@@ -171,7 +182,7 @@ pub fn build(repo: &Path, root: &Path, with_big: bool) -> Tree {
     let syn: [(&str, &str, &str); 2] = [
         (
             "syn_rec",
-            "schema { query: Q }\ntype Q { f(a: Rec, b: Other): Int }\ninput Rec { next: Rec, v: Int, o: Other }\ninput Other { x: Int, r: [Rec!] }\ninput Leaf { y: String }\ninput Pair { l: Leaf, m: Leaf }\n",
+            "schema { query: Q }\nscalar Stamp\nenum Tone { LOW HIGH }\ntype Q { f(a: Rec, b: Other): Int }\ninput Rec { next: Rec, v: Int, o: Other, at: Stamp }\ninput Other { x: Int, r: [Rec!], tone: Tone }\ninput Leaf { y: String }\ninput Pair { l: Leaf, m: Leaf }\n",
             "query Op($a: Rec, $b: Other) { f(a: $a, b: $b) }\n",
         ),
         (
@@ -196,6 +207,13 @@ pub fn build(repo: &Path, root: &Path, with_big: bool) -> Tree {
         // a sibling of exactly the same byte length (and, written in the same instant, practically
         // the same timestamps) but different content: anything that identifies files by metadata
         // confuses the two
+        if name == "syn_rec" {
+            // the Rec <-> Other cycle entered at one member only
+            for (file, text) in [("query_rec.graphql", "query OnlyRec($a: Rec) { f(a: $a) }\n"), ("query_other.graphql", "query OnlyOther($b: Other) { f(b: $b) }\n")] {
+                fs::write(d.join(file), text).unwrap();
+                fixtures.push(Fixture { dir: name.to_string(), file: file.into(), is_schema: false, ops: operation_names(text), big: false, deepbad: false });
+            }
+        }
         let sibling = if name == "syn_rec" { query.replace("query Op(", "query Oq(") } else { query.replace("query E {", "query F {") };
         assert_eq!(sibling.len(), query.len());
         fs::write(d.join("query_b.graphql"), &sibling).unwrap();
@@ -283,6 +301,8 @@ pub fn build(repo: &Path, root: &Path, with_big: bool) -> Tree {
     put("no_schema.json", b"{\"foo\": 1}", "json-without-schema", &mut bads);
     put("schema.txt", b"type Query { a: String }\nschema { query: Query }\n", "unsupported-extension", &mut bads);
     put("schema_noext", b"type Query { a: String }\nschema { query: Query }\n", "no-extension", &mut bads);
+    put("schema_upper.GRAPHQL", b"type Query { a: String }\nschema { query: Query }\n", "upper-case-extension", &mut bads);
+    put("schema_upper.JSON", b"{\"data\":{\"__schema\":{\"queryType\":{\"name\":\"Query\"},\"mutationType\":null,\"subscriptionType\":null,\"types\":[],\"directives\":[]}}}", "upper-case-extension", &mut bads);
     put("invalid_utf8.graphql", &[0x71, 0x75, 0xff, 0xfe, 0x80, 0x0a], "invalid-utf8", &mut bads);
     put("invalid_utf8_schema.json", &[0x7b, 0xff, 0xfe, 0x7d], "invalid-utf8", &mut bads);
     put("empty.graphql", b"", "empty", &mut bads);
@@ -297,6 +317,30 @@ pub fn build(repo: &Path, root: &Path, with_big: bool) -> Tree {
     symlink(bad.join("loop_b.graphql"), bad.join("loop_a.graphql")).unwrap();
     symlink(bad.join("loop_a.graphql"), bad.join("loop_b.graphql")).unwrap();
     bads.push(("bad/loop_a.graphql".into(), "symlink-loop"));
+    // content/extension mismatches: the text of a (valid, frequently used) schema file under a
+    // name that must make the load fail. Anything that recognises files by content rather than by
+    // the path it was asked for turns these failures into successes after the valid twin was used.
+    let mut bad_related: std::collections::BTreeMap<String, Vec<(String, &'static str)>> = Default::default();
+    fs::create_dir_all(bad.join("related")).unwrap();
+    for f in fixtures.iter().filter(|f| f.is_schema && !f.big) {
+        let text = fs::read(fx.join(&f.dir).join(&f.file)).unwrap_or_default();
+        let (stem, is_json) = match f.file.rsplit_once('.') {
+            Some((s, "json")) => (s.to_string(), true),
+            Some((s, _)) => (s.to_string(), false),
+            None => continue,
+        };
+        let names: Vec<(String, &'static str)> = if is_json {
+            vec![(format!("{}__{}_json_text.graphql", f.dir, stem), "json-text-under-graphql-extension"), (format!("{}__{}.JSON", f.dir, stem), "upper-case-extension"), (format!("{}__{}_json.txt", f.dir, stem), "unsupported-extension")]
+        } else if f.file.ends_with(".graphql") {
+            vec![(format!("{}__{}_sdl_text.json", f.dir, stem), "sdl-text-under-json-extension"), (format!("{}__{}.txt", f.dir, stem), "unsupported-extension"), (format!("{}__{}_noext", f.dir, stem), "no-extension")]
+        } else {
+            continue;
+        };
+        for (n, kind) in names {
+            fs::write(bad.join("related").join(&n), &text).unwrap();
+            bad_related.entry(f.dir.clone()).or_default().push((format!("bad/related/{}", n), kind));
+        }
+    }
     fs::write(bad.join("afile"), b"x").unwrap();
     bads.push(("bad/afile/query.graphql".into(), "not-a-directory"));
     // every regular file gets the same modification time (as after `cargo vendor`, unpacking an
@@ -323,6 +367,7 @@ pub fn build(repo: &Path, root: &Path, with_big: bool) -> Tree {
         fixtures,
         dirs,
         bad: bads,
+        bad_related,
     }
 }
 
